@@ -12,6 +12,7 @@ CLAIMS = {
  'C10': ('model_checking', 'every lookup against its brute-force specification (sound and complete) on constructive shapes, all argument tuples symbolic', 'bounded to the shapes; find_halfface(vertices)/(halfedges) checked in their documented 3-vertex / 2-halfedge reading'),
  'C11': ('model_checking', 'add_vertex/add_edge/add_face/add_cell: accept <=> specification predicate, reject/dedup => state unchanged, accept => exactly one entity appended with the given definition; every bottom-up subset', 'bounded (<= 2 per kind, lists <= 2); tet/hex overrides not yet under contract'),
  'C12': ('model_checking', 'all mutator obligations repeated for every bottom-up subset the function reads, vstd bounds assertions live on every cache access; enable_*(true) == recompute, enable_*(false) == empty', 'bounded as C01/C02/C17'),
+ 'C16': ('proof', 'orientation algebra (orthogonal_orientation, opposite_orientation) over all 65 536 argument pairs; layout accessors, orientation(), opposite_halfface_handle_in_cell on one cell with six arbitrary halfface handles', 'partial: add_cell reordering/check_halfface_ordering, hex_vertices and the sheet circulators are not under contract'),
  'C17': ('model_checking', 'swap_{cell,face,edge,vertex}_indices = transposition applied to definitions, flags, caches, ghost properties; swap twice = identity; self-swap no-op; from any WF state within the bounds', 'bounded (<= 2 per kind); definitions of deleted-but-uncollected entities only required to stay in range'),
  'C04': ('model_checking', 'collect_garbage / leaving deferred mode: no pending deletions afterwards and the entities, definitions (expressed in unique ids) and property values are exactly those of the logical mesh, for any pattern of pending deletions on any WF state within the bounds', 'bounded (<= 2 per kind; with caches: 1 vertex/edge); StatusAttrib::garbage_collection and tracked-handle remapping not decided'),
  'C06': ('proof', 'Encoder/Decoder primitives and all six header codecs are mutually inverse for every value (bit-exact float/double), written sizes equal the documented sizes', 'lemma level only: chunk sequencing, property directory, geometry writer templates and the ASCII format are not under contract'),
@@ -23,7 +24,6 @@ NA = {
  'C13': 'copy/assignment independence is about object ownership (shared_ptr, destructors, implicit special members); the C extraction maps container copy to deep copy by definition, so a contract would restate the model, not check the code (DESIGN 5)',
  'C14': 'property registry lifetime (reference counts, destructor order, Tracker back-pointers) is not representable in the extracted C: destructors and shared_ptr are dropped by the extraction (DESIGN 5)',
  'C15': 'tetrahedral kernel obligations not built yet',
- 'C16': 'hexahedral kernel obligations not built yet',
  'C19': 'vector algebra contracts not built yet',
 }
 m = {"version": 1, "setup_cmd": "python3 run.py setup",
